@@ -72,7 +72,7 @@ func buildMessage(t *tape, sr bool) *network.Message {
 	case network.CMDMPTData:
 		p = buildMPTData(t)
 	case network.CMDMerkleBlock:
-		p = buildMerkleBlock(t)
+		p = buildMerkleBlockSR(t, sr)
 	}
 	m := network.NewMessage(cmd, p)
 	m.StateRootInHeader = sr
